@@ -297,7 +297,7 @@ copy_gr(int32 infile_id, int32 outfile_id, int32 gr_in, int32 gr_out, int32 tag,
      * check for objects too small
      *-------------------------------------------------------------------------
      */
-    if (have_info && options->trip > 0 && nelms * eltsz < options->threshold) {
+    if (have_info && options->trip > 0 && data_size < options->threshold) {
         /* reset to the original values . we don't want to uncompress if it was */
         chunk_flags = chunk_flags_in;
         comp_type   = comp_type_in;
@@ -415,7 +415,7 @@ copy_gr(int32 infile_id, int32 outfile_id, int32 gr_in, int32 gr_out, int32 tag,
 
     /* use compress without chunk-in */
     else if (chunk_flags == HDF_NONE && comp_type > COMP_CODE_NONE) {
-        if (have_info && options->trip > 0 && nelms * eltsz < options->threshold) {
+        if (have_info && options->trip > 0 && data_size < options->threshold) {
             /* reset to the original values . we don't want to uncompress if it was */
             comp_type = COMP_CODE_NONE;
             if (options->verbose) {
